@@ -1,5 +1,5 @@
 (* Model/C05Run.v - case type and checker evaluated on harness-generated cases (C05) *)
-From ReqV Require Export Lib.Bytes Lib.BigEndian Model.QuicVarint Model.H2Frame Model.H3Frame Model.H2Meta.
+From ReqV Require Export Lib.Bytes Lib.BigEndian Model.QuicVarint Model.H2Frame Model.H3Frame Model.H2Meta Model.H3Writer.
 Open Scope N_scope.
 
 
@@ -19,6 +19,11 @@ Inductive c05_case :=
 | H3FrameHdr (t l : N) (obs : option bytes)
 (* settingsFrame.Append: the map, the order the call iterated it in (read back from the bytes), the bytes *)
 | H3SettingsAppend (d e : bool) (other order : list (N * N)) (obs : option bytes)
+(* requestWriter.writeHeaders: the field section (as a writer used by nobody else encodes it) and the
+   bytes handed to the stream *)
+| H3WriteFrame (section obs : bytes)
+(* two requests on one writer, A parked inside its k-th Write while B runs: both streams' bytes *)
+| H3Writer (k : N) (sec_a sec_b obs_a obs_b : bytes)
 | H3Fields (is_request : bool) (fs : list field) (obs : hres h3header)
 | H3Trailers (fs : list field) (obs : hres hmap)
 | H3Response (fs : list field) (obs : hres (h3header * Z)).
@@ -180,6 +185,13 @@ Definition c05_check (c : c05_case) : bool :=
   | H3FrameHdr t l obs => opt_bytes_eqb (h3_frame_header t l) obs
   | H3SettingsAppend d e other order obs =>
       pairs_same_map other order && opt_bytes_eqb (h3_settings_append d e order) obs
+  | H3WriteFrame sec obs => bytes_eqb (wframe sec) obs
+  | H3Writer k sa sb oa ob =>
+      let st := wrun (fun t : bool => if t then sa else sb) true (park_schedule k) in
+      match t_pc (w_a st), t_pc (w_b st) with
+      | PDone, PDone => bytes_eqb (t_out (w_a st)) oa && bytes_eqb (t_out (w_b st)) ob
+      | _, _ => false
+      end
   | H3Fields q fs obs => hres_eqb h3header_eqb (h3_parse_headers q fs) obs
   | H3Trailers fs obs => hres_eqb hmap_eqb (h3_parse_trailers fs) obs
   | H3Response fs obs =>
